@@ -194,7 +194,12 @@ class C04:
                 s.probability_distribution  # noqa: B018   (a distribution exists before the configuration is broken)
             except Exception:  # noqa: BLE001
                 pass
+            # a circuit the input does not fit; it carries a 50:50 beam splitter so that its U_full (irrational entries)
+            # cannot coincide with the U_full of a generated circuit (rational entries) of another size: the Sampler's
+            # snapshot does not contain the mode count, a circuit with 2 modes + 1 loss mode of loss 0 and an empty
+            # 3-mode circuit are the same configuration to it (reported to the lead; C11 lists it as an assumption)
             bad = lw.Circuit(circ.input_modes + 1)
+            bad.bs(0)
             try:
                 s.circuit = bad
                 repointed = True
